@@ -69,6 +69,9 @@ def _curve_shapes(tier):
     out.append(dict(p=2, mult=[], d=3, rational=False))
     out.append(dict(p=1, mult=[1], d=3, rational=False))
     out.append(dict(p=1, mult=[], d=4, rational=False))
+    # clamped knot vectors kept as given (normalize_kv=False, symbolic range [a, b])
+    out.append(dict(p=2, mult=[1], d=1, rational=False, norm=False))
+    out.append(dict(p=1, mult=[1], d=2, rational=True, norm=False))
     if tier == 'thorough':
         out.append(dict(p=2, mult=[1], d=3, rational=False))
         out.append(dict(p=3, mult=[2], d=1, rational=True))
@@ -86,15 +89,15 @@ def _patterns(nd, p):
                       'helpers.find_span_linear', 'BSpline.Curve.set_ctrlpts', 'BSpline.Curve.knotvector',
                       'BSpline.Curve.evaluate_single'],
           quick=lambda: _curve_shapes('quick'), thorough=lambda: _curve_shapes('thorough'))
-def curve_refine(ctx, p, mult, d, rational):
+def curve_refine(ctx, p, mult, d, rational, norm=True):
     """requires: valid clamped knot vector, refined knots farther apart than 1e-7, positive weights, u in domain
        ensures : evaluate_single(u) == C(u) of the original definition; knot vector == refined_kv; size follows"""
-    U, inner, n = shapes.make_kv(ctx, p, mult)
+    U, inner, n = shapes.make_kv(ctx, p, mult, normalized=norm)
     _gaps(ctx, U, inner, d)
     u = shapes.param_in(ctx, 'u', U[0], U[-1])
     P = shapes.net(ctx, 'P', n, 2)
     W = shapes.weights(ctx, 'w', n) if rational else None
-    crv = shapes.build_curve(ctx, p, U, P, W)
+    crv = shapes.build_curve(ctx, p, U, P, W, normalize_kv=norm)
     Pw = shapes.homog(P, W)
     if rational:
         ctx.assume_pos(spec.curve_point(p, U, [[w] for w in W], u)[0], 'L.weight_function_positive')
@@ -116,6 +119,7 @@ def _helper_shapes(tier):
     out = [dict(p=2, mult=[1], mode='knot_list', d=1),
            dict(p=2, mult=[], mode='add_knot_list', d=1),
            dict(p=2, mult=[1], mode='add_knot_list', d=1),          # the additional knot may coincide with an interior knot
+           dict(p=2, mult=[1], mode='knot_list1', d=1), dict(p=3, mult=[], mode='knot_list1', d=2),     # a single listed knot
            dict(p=1, mult=[1], mode='knot_list', d=2),
            dict(p=3, mult=[], mode='knot_list', d=1),
            dict(p=2, mult=[2], mode='default', d=1)]
@@ -140,7 +144,10 @@ def helper_refine(ctx, p, mult, mode, d):
     hp = ctx.geomdl('helpers')
     a = shapes.param_in(ctx, 'a', lo, hi, open_lo=True, open_hi=True)
     kw = {'density': d}
-    if mode == 'knot_list':
+    if mode == 'knot_list1':
+        listed = [a]                 # nothing to bisect between: the one knot is raised to multiplicity p, whatever the density
+        kw['knot_list'] = [a]
+    elif mode == 'knot_list':
         b = shapes.param_in(ctx, 'b', lo, hi, open_lo=True, open_hi=True)
         ctx.assume(ctx.gt(b - a, TOL * 2 ** d))
         listed = bisect([a, b], d)
